@@ -56,13 +56,9 @@ def check(ctx):
     if summ.get("move_not_applied"):
         raise ToolError("%d runs in which the MITM move was never applied" % summ["move_not_applied"])
     lines = read_lines(ctx.path("trace.ndjson"))
-    # partition by input: the non-canonical key encodings (all hit the recorded finding) are validated separately
-    nc = [ln for ln in lines if '"pv":"noncanonKey"' in ln]
-    rest = [ln for ln in lines if '"pv":"noncanonKey"' not in ln]
-    nseg, nev, rejects = validate_segments(ctx, "NoiseHSTrace.tla", "NoiseHSTrace.cfg", rest, mode="prop", max_rejects=8, is_reset=ONE)
-    n2, _, rej2 = validate_segments(ctx, "NoiseHSTrace.tla", "NoiseHSTrace.cfg", nc, mode="prop", max_rejects=3, tag="n", is_reset=ONE)
+    nseg, nev, rejects = validate_segments(ctx, "NoiseHSTrace.tla", "NoiseHSTrace.cfg", lines, mode="prop", max_rejects=8, is_reset=ONE)
     violations = []
-    for seg, idx in rejects + rej2:
+    for seg, idx in rejects:
         ev = json.loads(seg[idx - 1])
         violations.append({"sig": classify(seg, idx),
                            "what": "real handshake outcome %s(%s) as %s not allowed by NoiseHS!Allowed for scenario %s (%s)"
@@ -72,7 +68,8 @@ def check(ctx):
     for seg, idx in drift:
         log("NOTE drift: real handshake outcome differs from the symbolic Impl layer: %s" % seg[idx - 1][:400])
     outc = summ["outcomes"]
-    need = ["ok_pass", "ok_asR", "err_stolen", "err_sigByOther", "err_sigOverOtherStatic", "err_sigNoPrefix", "err_noSig", "err_noKey",
+    known = load_known(ctx.pid)
+    need = [] if any(v["sig"] not in known for v in violations) else ["ok_pass", "ok_asR", "err_stolen", "err_sigByOther", "err_sigOverOtherStatic", "err_sigNoPrefix", "err_noSig", "err_noKey",
             "err_garbageSig", "err_unknownType", "err_corrupt", "err_substitute", "err_drop", "err_replay", "err_extend",
             "err_truncadj", "err_truncraw", "ok_tcp_B", "err_tcp_C"]
     for k in need:
@@ -106,6 +103,7 @@ MUTANTS = [
     ("signer not compared with the advertised key", "p.sig.by = p.key.n /\\ p.sig.over", "p.sig.over"),
     ("domain prefix not required", "p.sig.over = <<\"prefix\", ep.rs>>", "p.sig.over \\in {<<\"prefix\", ep.rs>>, <<ep.rs>>}"),
     ("dialed peer not compared", "IF side = \"d\" /\\ sc.dialed # \"none\" /\\ sc.dialed # peer THEN Fail(ep)", "IF FALSE THEN Fail(ep)"),
+    ("peer id derived from the received key bytes", "ELSE LET peer == p.key.n IN", "ELSE LET peer == IF p.key.canon THEN p.key.n ELSE \"X\" IN"),
     ("handshake hash not bound into the AEAD", "ct.t = \"enc\" /\\ ct.ck = ss.ck /\\ ct.h = ss.h", "ct.t = \"enc\" /\\ ct.ck = ss.ck"),
 ]
 
@@ -126,18 +124,12 @@ def selftest(ctx):
         bad = "is violated" in out
         log("selftest model mutant '%s' -> %s" % (name, "invariant violated (good)" if bad else "NOT DETECTED"))
         ok &= bad
-    # strict refinement must fail exactly because of the recorded finding
-    rc, out = run(["tlc", "-workers", "1", "-metadir", ctx.metadir(), "-cleanup", "-noGenerateSpecTE", "-config",
-                   write_cfg(ctx, "strict.cfg", CONSTS, ["SPECIFICATION Spec", "INVARIANTS RefinesStrict", "CHECK_DEADLOCK FALSE"]),
-                   os.path.join(SPEC, "NoiseHSMC.tla")], timeout=300, cwd=ctx.work, env={"JAVA_TOOL_OPTIONS": "-Xss512m"})
-    log("selftest strict refinement (finding modelled) -> %s" % ("violated (good)" if "RefinesStrict is violated" in out else "NOT VIOLATED"))
-    ok &= "RefinesStrict is violated" in out
     # binding: corrupt good recorded outcomes
     behs, _ = tlc_generate(ctx, "NoiseHSMC.tla", write_cfg(ctx, "gen.cfg", CONSTS, GEN_LINES))
     write_jsonl(ctx.path("behs.jsonl"), behs)
     cargo_build(ctx, ["noisehs"])
     harness(ctx, "noisehs", ["--behaviours", ctx.path("behs.jsonl"), "--seed", ctx.seed, "--out", ctx.path("t.ndjson"), "--tcp-reps", 1])
-    lines = [ln for ln in read_lines(ctx.path("t.ndjson")) if '"pv":"noncanonKey"' not in ln]
+    lines = read_lines(ctx.path("t.ndjson"))
     rnd = random.Random(ctx.seed)
 
     def corrupt(pred, mut, what):
@@ -161,7 +153,7 @@ def selftest(ctx):
     for fault in ("accept_all", "wrong_peer", "reject_all"):
         harness(ctx, "noisehs", ["--behaviours", ctx.path("behs.jsonl"), "--seed", ctx.seed, "--out", ctx.path("f.ndjson"), "--tcp-reps", 0],
                 env={"VERIF_FAULT": fault})
-        fl = [ln for ln in read_lines(ctx.path("f.ndjson")) if '"pv":"noncanonKey"' not in ln]
+        fl = read_lines(ctx.path("f.ndjson"))
         _, _, rej = validate_segments(ctx, "NoiseHSTrace.tla", "NoiseHSTrace.cfg", fl, max_rejects=1, tag="f", is_reset=ONE)
         log("selftest harness fault %s -> %s" % (fault, "rejected (%s)" % classify(*rej[0]) if rej else "ACCEPTED"))
         ok &= bool(rej)
